@@ -11,11 +11,12 @@ import (
 func init() { registry["C14"] = checkC14 }
 
 func checkC14(c *Ctx, r *Report) {
-	r.Explain = "Decides structural necessary conditions of attachment integrity and lifetime: (R1) content addressing — the storage key and the advertised digest of a new attachment are computed from the very bytes that are stored, and the advertised length is their length; (R2) an attachment document is deleted by the write path only after the commit succeeded, only when obsolete-attachment removal was not disabled (cross-cluster versioning, or a failed leaf scan before or after the write), and only on the miss edge of the lookup in the set of attachments still referenced by any leaf computed after the write; that set is complete or an error — every load/parse failure while collecting leaf attachments propagates; (R3) attachment documents are deleted only by the listed owners; (R4) a replication peer can fetch an attachment only while the allow-list counter for it is positive, every path after registering a revision's attachments on the allow-list reaches their removal (failed send, and every exit of the response handler), and the allow-list is only touched under its lock. Not decided: byte identity through all APIs, histories that share digests across documents, completeness of clean-up."
+	r.Explain = "Decides structural necessary conditions of attachment integrity and lifetime: (R1) content addressing — the storage key and the advertised digest of a new attachment are computed from the very bytes that are stored, and the advertised length is their length; (R2) an attachment document is deleted by the write path only after the commit succeeded, only when obsolete-attachment removal was not disabled (cross-cluster versioning, or a failed leaf scan before or after the write), and only on the miss edge of the lookup in the set of attachments still referenced by any leaf computed after the write; that set is complete or an error — every load/parse failure while collecting leaf attachments propagates; (R3) attachment documents are deleted only by the listed owners; (R4) a replication peer can fetch an attachment only while the allow-list counter for it is positive, every path after registering a revision's attachments on the allow-list reaches their removal (failed send, and every exit of the response handler), and the allow-list is only touched under its lock.; (R5) the pre-write scan of the leaves' attachments is repeated on every CAS attempt, before the update is computed. Not decided: byte identity through all APIs, histories that share digests across documents, completeness of clean-up."
 	c14R1(c, r)
 	c14R2(c, r)
 	c14R3(c, r)
 	c14R4(c, r)
+	c14R5(c, r)
 }
 
 func c14R1(c *Ctx, r *Report) {
@@ -397,4 +398,37 @@ func c14R4(c *Ctx, r *Report) {
 	la := newLockAnalysis(c, []string{"BlipSyncContext.allowedAttachmentsLock"}, "db")
 	la.Solve()
 	runGuardRule(c, r, "C14-R4", la, []GuardRow{{Struct: "db.BlipSyncContext", Fields: []string{"allowedAttachments"}, Lock: "BlipSyncContext.allowedAttachmentsLock"}}, nil)
+}
+
+// C14-R5: the set of attachments referenced before the write ("previous leaf attachments") is what obsolete-attachment removal
+// compares against after the commit. It has to describe the document the CAS attempt actually writes over: the scan is repeated,
+// unconditionally, on every attempt of the CAS loop, before the update is computed.
+func c14R5(c *Ctx, r *Report) {
+	r.Rule("C14-R5", "E2 pathrules", "inside the CAS callback of updateAndReturnDoc the pre-write leaf-attachment scan dominates the computation of the update (it is repeated on every attempt, on the freshly read document)", 1)
+	top := c.Func("(*db.DatabaseCollectionWithUser).updateAndReturnDoc")
+	if top == nil {
+		r.Fail("C14-R5", "anchor updateAndReturnDoc", "-", "function not found")
+		return
+	}
+	n := 0
+	for _, lit := range top.AnonFuncs {
+		dufs := c.Calls(lit, false, nameIs("(*db.DatabaseCollectionWithUser).documentUpdateFunc"))
+		if len(dufs) == 0 {
+			continue
+		}
+		scans := c.EffectSites(lit, func(in ssa.Instruction) bool {
+			ci, ok := in.(ssa.CallInstruction)
+			return ok && c.CalleeName(ci) == "db.getAttachmentIDsForLeafRevisions"
+		}, 2)
+		for _, d := range dufs {
+			n++
+			ok := len(scans) > 0 && DominatedBy(lit, d, NewAvoid().AddInstr(scans...))
+			// and the scan judges the document handed to this attempt (a value of the literal, not of the enclosing function)
+			r.Check("C14-R5", fmt.Sprintf("fn=updateAndReturnDoc$cas-callback leaf-attachment-scan repeated-on=every-attempt #%d", n), c.Pos(d.Pos()), ok,
+				"the scan of the leaves' attachments precedes the update on every path of every attempt", "the pre-write scan of the leaves' attachments can be skipped on a CAS retry (or altogether): obsolete-attachment removal then compares against the attachments of a document that is no longer the one written over — an attachment added by the writer that won the race and dropped by this write is never deleted, or one still referenced is")
+		}
+	}
+	if n == 0 {
+		r.Fail("C14-R5", "fn=updateAndReturnDoc$cas-callback", c.Pos(top.Pos()), "the CAS callback computing the update was not found")
+	}
 }
